@@ -53,7 +53,7 @@ def run(ch, tier):
         if r.ms is not None and r.ms.event is not None:
             e = r.ms.event
             uid = r.consumed_uid
-            info = sim.all_uids.get(uid)
+            info = sim.all_uids.get(r.consumed_key)
             if info is None:
                 return res.fail('unknown-event', 'step consumed %r which nobody queued' % e, **ctx) and r
             if info['consumed_at'] == 'twice':
@@ -68,7 +68,7 @@ def run(ch, tier):
                 return res.fail('wrong-event', 'step at %s consumed uid %s (%s, %s, due %s); the queue discipline prescribes uid %s (%s, %s, due %s)' % (
                     float(r.T), uid, e.name, 'internal' if info['internal'] else 'external', float(info['due']),
                     head and head[2], head and head[3],
-                    head and ('internal' if sim.all_uids[head[2]]['internal'] else 'external'), head and float(head[0])), **ctx) and r
+                    head and ('internal' if r.head_internal else 'external'), head and float(head[0])), **ctx) and r
             hist.append(('consume', uid, e.name, float(r.T)))
             if npend >= 2:
                 res.nontrivial.add(fp((cfp, sorted(pend))))
